@@ -1,6 +1,7 @@
 (* C10 - every reported source location is the true line and column.
    Theorems only; proofs live in Lang/LocationProps.v. *)
-From GV Require Import Base.Prelude Lang.Location Lang.LocationProps Lang.Lexer Lang.LexerLoc.
+From GV Require Import Base.Prelude Lang.Location Lang.LocationProps Lang.Lexer Lang.LexerLoc
+  Lang.Render Lang.RenderProps.
 
 (* get_location = 1 + #terminators(LF, CR LF once, CR; nothing else) before the offset,
    1 + distance from the end of the last one. *)
@@ -33,7 +34,65 @@ Theorem C10_token_locations : forall s ts, lex s = Ok ts ->
 Proof. exact token_locations. Qed.
 Print Assumptions C10_token_locations.
 
+(* The complete rendering (print_source_location: header, previous/named/next line or the 80-column
+   sub-lines of a line longer than 120 characters, caret row) of the location of ANY offset of ANY
+   body under ANY location offset never fails: every index access of the code is in range. *)
+Theorem C10_render_never_fails : forall name pad lineoff body pos,
+  exists t, print_source_location name pad lineoff (fst (get_location body pos))
+              (snd (get_location body pos)) body = Some t.
+Proof. exact print_location_total. Qed.
+Print Assumptions C10_render_never_fails.
+
+(* Ordinary lines: the rows are exactly (previous line if any, the NAMED line under its line number,
+   the caret row at the printed column, next line if any). *)
+Theorem C10_render_excerpt_short : forall lines li ln cn ll,
+  nth_error lines li = Some ll -> (length ll <= 120)%nat ->
+  rows lines li ln cn =
+  Some [(num_prefix (ln - 1), if (0 <? li)%nat then nth_error lines (li - 1) else None);
+        (num_prefix ln, Some ll);
+        (bar_prefix, Some (rjust cn [CARET]));
+        (num_prefix (ln + 1), nth_error lines (li + 1))].
+Proof. exact rows_short. Qed.
+Print Assumptions C10_render_excerpt_short.
+
+(* Long ("minified") lines: the rows above the caret, concatenated, are exactly the first
+   80 * (column div 80 + 1) characters of the NAMED line; one more sub-line follows if there is one. *)
+Theorem C10_render_excerpt_long : forall lines li ln cn ll,
+  nth_error lines li = Some ll -> (120 < length ll)%nat ->
+  let idx := (cn / 80)%nat in
+  let mid := slice 1 (idx + 1) (sub_lines ll) in
+  let nxt := if (idx + 1 <? length (sub_lines ll))%nat
+             then Some (firstn 80 (skipn (80 * (idx + 1)) ll)) else None in
+  rows lines li ln cn =
+    Some ((num_prefix ln, Some (firstn 80 ll))
+          :: map (fun s => (bar_prefix, Some s)) mid
+          ++ [(bar_prefix, Some (rjust (cn mod 80) [CARET])); (bar_prefix, nxt)])
+  /\ firstn 80 ll ++ concat mid = firstn (80 * (idx + 1)) ll.
+Proof. exact rows_long. Qed.
+Print Assumptions C10_render_excerpt_long.
+
+(* The printed column points at the offset: the named line of the (padded) text starts with
+   exactly column-1 characters = (first-line padding) ++ the text between the last line
+   terminator before the offset and the offset. *)
+Theorem C10_caret_at_location : forall pad body pos,
+  let line := fst (get_location body pos) in
+  let col := snd (get_location body pos) in
+  let cn := (col + (if (line =? 1)%nat then pad else 0))%nat in
+  exists ll suffix,
+    nth_error (split_lines (repeat SP pad ++ body)) (line - 1) = Some ll /\
+    ll = ((if (line =? 1)%nat then repeat SP pad else []) ++ last (split_lines (firstn pos body)) []) ++ suffix /\
+    (cn - 1 = length ((if (line =? 1)%nat then repeat SP pad else []) ++ last (split_lines (firstn pos body)) []))%nat.
+Proof. exact caret_column_is_location. Qed.
+Print Assumptions C10_caret_at_location.
+
 (* non-vacuity: a concrete text with all three terminators and a non-terminator FF *)
 Example C10_example :
   get_location [97; 13; 10; 98; 12; 13; 99; 10; 100] 8%nat = (4%nat, 1%nat).
 Proof. reflexivity. Qed.
+
+(* non-vacuity of the rendering theorems: "a\nbc\nd", offset 3 -> "G:2:2\n1 | a\n2 | bc\n  |  ^\n3 | d" *)
+Example C10_render_example :
+  print_source_location [71] 0 0 2 2 [97; 10; 98; 99; 10; 100] =
+  Some [71; 58; 50; 58; 50; 10; 49; 32; 124; 32; 97; 10; 50; 32; 124; 32; 98; 99; 10;
+        32; 32; 124; 32; 32; 94; 10; 51; 32; 124; 32; 100].
+Proof. vm_compute. reflexivity. Qed.
